@@ -199,6 +199,93 @@ def check_cleanup(repo, res, m, cname):
         res.add(mk_finding(PROP, "Q-COPY", m, rets[0] if rets else m.node, f"{m.qualname} does not return the network it cleaned", role="return"))
 
 
+def inline_label(fn, adder_stmt, mapname, label_param):
+    """The bulk adder receives (new id, ..., ATTRS) tuples generated from `mapname`/the saved tables; ATTRS must be the old
+    attributes with {label_attribute: old id} applied LAST. Returns (True|False|None, why)."""
+    for c in ast.walk(adder_stmt):
+        if not (isinstance(c, ast.Call) and getattr(c.func, "attr", None) in ("add_nodes_from", "add_edges_from", "add_simplices_from") and c.args and isinstance(c.args[0], (ast.GeneratorExp, ast.ListComp))):
+            continue
+        g = c.args[0]
+        if not (isinstance(g.elt, ast.Tuple) and len(g.elt.elts) >= 2):
+            return None, ""
+        attrs = g.elt.elts[-1]
+        # loop variable that ranges over the OLD ids
+        tgt = g.generators[0].target
+        old_names = set()
+        it = g.generators[0].iter
+        if isinstance(tgt, ast.Tuple) and isinstance(it, ast.Call) and getattr(it.func, "attr", None) == "items" and isinstance(tgt.elts[0], ast.Name):
+            old_names.add(tgt.elts[0].id)  # for n, idx in node_dict.items() / for e, edge in edges.items(): first is the old id
+        if isinstance(attrs, ast.Call) and isinstance(attrs.func, ast.Name):
+            helper = next((h for h in ast.walk(fn.node) if isinstance(h, (ast.FunctionDef,)) and h.name == attrs.func.id and h is not fn.node), None)
+            if helper is None:
+                return None, ""
+            params = [a.arg for a in helper.args.args]
+            binding = dict(zip(params, attrs.args))
+            old_params = {p for p, a in binding.items() if isinstance(a, ast.Name) and a.id in old_names}
+            if not old_params:
+                return False, "passes something other than the old ID to the helper that records the label"
+            return label_last(helper, old_params, label_param)
+        if isinstance(attrs, ast.Dict):
+            return dict_literal_label_last(attrs, old_names, label_param)
+        return None, ""
+    return None, ""
+
+
+def dict_literal_label_last(d, old_names, label_param):
+    pos_label = pos_spread = -1
+    for i, (k, v) in enumerate(zip(d.keys, d.values)):
+        if k is None:
+            pos_spread = i
+        elif isinstance(k, ast.Name) and k.id == label_param and isinstance(v, ast.Name) and v.id in old_names:
+            pos_label = i
+    if pos_label < 0:
+        return False, "does not store the old ID under the label attribute"
+    if pos_spread > pos_label:
+        return False, "merges the old attributes AFTER the recorded label, so an existing attribute of the same name overwrites the old ID that was to be recorded"
+    return True, ""
+
+
+def label_last(helper, old_params, label_param):
+    """In the helper that builds the attribute dict: the store of {label_attribute: old id} comes after the old attributes
+    were merged in (straight-line code; anything else is not recognised)."""
+    rets = [s for s in own_statements(helper) if isinstance(s, ast.Return) and s.value is not None]
+    if len(rets) != 1:
+        return None, ""
+    if isinstance(rets[0].value, ast.Dict):
+        return dict_literal_label_last(rets[0].value, old_params, label_param)
+    if not isinstance(rets[0].value, ast.Name):
+        return None, ""
+    r = rets[0].value.id
+    label_at = attrs_at = -1
+    for i, st in enumerate(helper.body):
+        if isinstance(st, (ast.If, ast.For, ast.While, ast.Try)):
+            return None, ""
+        if isinstance(st, ast.Assign) and any(isinstance(t, ast.Name) and t.id == r for t in st.targets):
+            v = st.value
+            if isinstance(v, ast.Dict):
+                ok, _ = dict_literal_label_last(v, old_params, label_param)
+                if any(k is None for k in v.keys):
+                    attrs_at = i
+                if ok:
+                    label_at = i
+            else:
+                attrs_at = i  # deepcopy(attrs) / dict(attrs) / attrs.copy()
+        if isinstance(st, ast.Assign) and any(isinstance(t, ast.Subscript) and isinstance(t.value, ast.Name) and t.value.id == r and isinstance(t.slice, ast.Name) and t.slice.id == label_param for t in st.targets):
+            if isinstance(st.value, ast.Name) and st.value.id in old_params:
+                label_at = i
+        if isinstance(st, ast.Expr) and isinstance(st.value, ast.Call) and isinstance(st.value.func, ast.Attribute) and st.value.func.attr == "update" and isinstance(st.value.func.value, ast.Name) and st.value.func.value.id == r and st.value.args:
+            a = st.value.args[0]
+            if isinstance(a, ast.Dict) and dict_literal_label_last(a, old_params, label_param)[0]:
+                label_at = i
+            else:
+                attrs_at = i
+    if label_at < 0:
+        return False, "does not store the old ID under the label attribute"
+    if attrs_at > label_at:
+        return False, "merges the old attributes AFTER the recorded label, so an existing attribute of the same name overwrites the old ID that was to be recorded (relabelling twice, or data that already has such an attribute, records stale labels)"
+    return True, ""
+
+
 def check_relabel(repo, res):
     mi = repo.modules.get("xgi.utils.utilities")
     fn = mi.functions.get("convert_labels_to_integers") if mi else None
@@ -248,15 +335,31 @@ def check_relabel(repo, res):
 
     sn = [s for s in stmts if calls(s, "set_node_attributes")]
     se = [s for s in stmts if calls(s, "set_edge_attributes")]
-    ok = bool(sn) and all(cfg.dominated_by(s, lambda n: calls(n, "add_nodes_from")) for s in sn) and all(EXIT not in cfg.reachable(a, avoid=lambda n: calls(n, "set_node_attributes")) for a in stmts if calls(a, "add_nodes_from"))
+    node_adders = [a for a in stmts if calls(a, "add_nodes_from")]
+    ok = bool(sn) and all(cfg.dominated_by(s, lambda n: calls(n, "add_nodes_from")) for s in sn) and all(EXIT not in cfg.reachable(a, avoid=lambda n: calls(n, "set_node_attributes")) for a in node_adders)
+    why = "does not record the old node labels after re-adding the nodes on every path (recording them before the nodes exist is silently ignored)"
+    if not ok and not sn and node_adders:
+        # the label is put into the attribute dict handed to add_nodes_from: it must win over an attribute of the same name
+        verdicts = [inline_label(fn, a, maps["nodes"][1], fn.params[1]) for a in node_adders]
+        if all(v[0] is True for v in verdicts):
+            ok = True
+        elif any(v[0] is False for v in verdicts):
+            why = next(v[1] for v in verdicts if v[0] is False)
     res.inst("Q-LABEL", "old node labels are recorded after the nodes are re-added, on every path", ok)
     if not ok:
-        res.add(mk_finding(PROP, "Q-LABEL", fn, sn[0] if sn else fn.node, "convert_labels_to_integers does not record the old node labels after re-adding the nodes on every path (recording them before the nodes exist is silently ignored)", role="node-labels"))
+        res.add(mk_finding(PROP, "Q-LABEL", fn, sn[0] if sn else fn.node, f"convert_labels_to_integers {why}", role="node-labels"))
     adders = [s for s in stmts if calls(s, "add_edges_from") or calls(s, "add_simplices_from")]
     ok = bool(se) and bool(adders) and all(EXIT not in cfg.reachable(a, avoid=lambda n: calls(n, "set_edge_attributes")) for a in adders) and all(not any(a in cfg.reachable(s) for a in adders) for s in se)
+    why = "does not record the old edge labels after re-adding the edges on every path"
+    if not ok and not se and adders:
+        verdicts = [inline_label(fn, a, maps["edges"][1], fn.params[1]) for a in adders]
+        if all(v[0] is True for v in verdicts):
+            ok = True
+        elif any(v[0] is False for v in verdicts):
+            why = next(v[1] for v in verdicts if v[0] is False)
     res.inst("Q-LABEL", "old edge labels are recorded after the edges are re-added, for every network class", ok)
     if not ok:
-        res.add(mk_finding(PROP, "Q-LABEL", fn, se[0] if se else fn.node, "convert_labels_to_integers does not record the old edge labels after re-adding the edges on every path", role="edge-labels"))
+        res.add(mk_finding(PROP, "Q-LABEL", fn, se[0] if se else fn.node, f"convert_labels_to_integers {why}", role="edge-labels"))
     # the recorded label is the OLD label under the label attribute: {idx: {label_attribute: n} for n, idx in node_dict.items()}
     for s, mapname in ((sn[0] if sn else None, maps["nodes"][1]), (se[0] if se else None, maps["edges"][1])):
         if s is None:
